@@ -894,6 +894,8 @@ class Executor:
         if isinstance(a, VOpaque) or isinstance(b, VOpaque):
             if any(isinstance(x, VOpaque) and isinstance(x.what, tuple) and x.what[0] in ("rawbox", "addr") for x in (a, b)):
                 return VOpaque(("addr", "pointer arithmetic of the vec![..] idiom"))
+            if op in ("Mul", "Add", "Sub", "Div") and any(isinstance(x, VOpaque) and isinstance(x.what, tuple) and x.what[0] == "const" and str(x.what[1]).endswith(("f64", "f32")) for x in (a, b)):
+                return VOpaque("float arithmetic (reporting only; never decided on)")
         if isinstance(a, VEnum) and isinstance(b, VEnum) and op in ("Eq", "Ne"):
             # fieldless enums compared through discriminant casts only; not expected here
             raise Unsupported("enum comparison by binop")
